@@ -540,6 +540,33 @@ func run(c *mon.Case) {
 		default:
 			splitCase[uint8](c, 0, 200, "uint8 0/200")
 		}
+		// many intervals per set: a 64-point universe with random bit densities (up to 32
+		// intervals per operand; counts of intervals lying in front of another one vary)
+		for k := 0; k < 6; k++ {
+			am, bm := c.Rng.Uint64(), c.Rng.Uint64()
+			switch c.Rng.Intn(5) {
+			case 0:
+				am = 0x5555555555555555 << uint(c.Rng.Intn(2)) // 32 unit intervals
+			case 1:
+				bm &= c.Rng.Uint64() // sparser
+			case 2:
+				// one long interval of a behind k unit intervals of b
+				kk := 1 + c.Rng.Intn(30)
+				bm = 0
+				for i := 0; i < kk; i++ {
+					bm |= 1 << uint(2*i)
+				}
+				am = ^uint64(0) << uint(2*kk+c.Rng.Intn(3))
+				bm |= c.Rng.Uint64() & am
+			case 3:
+				am |= c.Rng.Uint64()
+			}
+			if c.Rng.Intn(2) == 0 {
+				am, bm = bm, am
+			}
+			checkPair[uint64](c, am, bm, 64, 1<<40, "uint64 64-point universe")
+			c.Count("dense_universe_pairs", 1)
+		}
 		c.Count("random_histories", 1)
 		if c.WantSample() {
 			c.Sample(fmt.Sprintf("random case %d: two lists of <=8 possibly overlapping intervals through NewMap, 3 ops, and a 4-step chain", c.Idx))
@@ -550,7 +577,7 @@ func run(c *mon.Case) {
 func main() {
 	mon.Main(mon.Spec{
 		Prop:        "C17",
-		Rule:        "case = (operation, operand sets); exhaustive over all pairs of subsets of a small universe in canonical form, all lists of <=3 intervals over 7 points through NewMap, plus random interval lists with duplicates/nesting/adjacency at the extremes of uint8/int16/uint64, and over a split universe whose two halves lie at opposite ends of the type's range (uint64 low/high half, int64 min/max, ...); non-trivial = result has >=2 intervals, or an operand is empty, or one interval spans two of the other operand",
+		Rule:        "case = (operation, operand sets); exhaustive over all pairs of subsets of a small universe in canonical form, all lists of <=3 intervals over 7 points through NewMap, plus random interval lists with duplicates/nesting/adjacency at the extremes of uint8/int16/uint64, over a 64-point universe with up to 32 intervals per operand, and over a split universe whose two halves lie at opposite ends of the type's range (uint64 low/high half, int64 min/max, ...); non-trivial = result has >=2 intervals, or an operand is empty, or one interval spans two of the other operand",
 		Explanation: "oracle: bitset over the universe; every result must be sorted, disjoint, non-adjacent, non-empty and denote exactly the reference set; operands must be unchanged; in the pool histories (24 operations whose operands are earlier operands and results) every map built or returned so far must still denote its set after each operation; panics are violations. exhaustive=true refers to the pair enumeration over the 10-point (quick) / 12-point (thorough) universe and the NewMap list enumeration.",
 		Assumptions: []string{"bitset reference over a <=24 point window", "interval.New with begin<end is the only way inputs are built"},
 		Cases:       cases,
@@ -561,7 +588,7 @@ func main() {
 			return 200000
 		},
 		Exhaustive:     func(string) bool { return true },
-		RequiredCounts: []string{"far_apart_universe_cases", "pool_history_ops", "random_histories", "exhaustive_pairs"},
+		RequiredCounts: []string{"dense_universe_pairs", "far_apart_universe_cases", "pool_history_ops", "random_histories", "exhaustive_pairs"},
 		Run:            run,
 	})
 }
